@@ -15,3 +15,11 @@ Example C15_inside_pair_refuted :
   let line := [97; 98; 99; 128076; 100; 101; 102] in
   start_inside_pair line 4 2 = true /\ get_line_slice line 4 2 <> covering line 4 2.
 Proof. split; [vm_compute; reflexivity|vm_compute; discriminate]. Qed.
+
+(* the line iterator: get_line 0, get_line 1, ... until the first None -- from any reachable state of the view it yields all
+   the lines in order and leaves the view in a reachable state (so it composes with any request history) *)
+From SM Require Import Proofs.LinesIter.
+Theorem C15_lines_iter : forall src st, Inv src st ->
+  exists st', lines_from src (S (length (L src))) 0 st [] = Ok (st', L src) /\ Inv src st'.
+Proof. exact LinesIter.C15_lines_iter. Qed.
+Print Assumptions C15_lines_iter.
